@@ -254,6 +254,7 @@ def _f(o: Any):
     return None
 
 
+NATURAL = [False]  # model NumPy's floating-point warnings (divide / invalid / overflow) on scalar operations
 CANON = [False]  # canonical-UF mode (C07): normalisations that are EXACT identities of IEEE-754 arithmetic
 
 
@@ -354,6 +355,8 @@ class SFloat:
                 return NotImplemented
             return NotImplemented
         a, b = (t, self.t) if swap else (self.t, t)
+        if NATURAL[0] and name in ('add', 'sub', 'mul', 'div'):
+            return SFloat(_natural_arith(name, a, b))
         return SFloat(_arith(name, a, b))
 
     def __add__(self, o):
@@ -415,9 +418,13 @@ class SFloat:
 
     # methods NumPy's object loops call
     def exp(self):
+        if NATURAL[0]:
+            return _natural_exp(self.t)
         return SFloat(UF_EXP(self.t))
 
     def log(self):
+        if NATURAL[0]:
+            return _natural_log(self.t)
         return SFloat(UF_LOG(self.t))
 
     def sqrt(self):
@@ -487,6 +494,120 @@ class SFloat:
 
     def __repr__(self) -> str:
         return f'SFloat({self.t})'
+
+
+def _finite(t):
+    return z3.And(z3.Not(z3.fpIsNaN(t)), z3.Not(z3.fpIsInf(t)))
+
+
+def _warn_if(cond, message: str) -> None:
+    """Fork on `cond`; on the true side behave as NumPy does (warnings.warn with RuntimeWarning)."""
+    import warnings
+
+    if cur().branch(cond, prefer=False):
+        warnings.warn(message, RuntimeWarning, stacklevel=3)
+
+
+def _numpy_warnings(name: str, a, b, r) -> None:
+    """NumPy's default error state for float64 scalars: divide='warn', over='warn', invalid='warn', under='ignore'.
+    Requires interpreted (IEEE) arithmetic: `r` must be the real result term."""
+    zero = fpval(0.0)
+    if name == 'div':
+        _warn_if(z3.And(z3.fpEQ(b, zero), _finite(a), z3.Not(z3.fpEQ(a, zero))), 'divide by zero encountered in scalar divide')
+    _warn_if(z3.And(z3.fpIsNaN(r), z3.Not(z3.fpIsNaN(a)), z3.Not(z3.fpIsNaN(b))), f'invalid value encountered in scalar {name}')
+    over = z3.And(z3.fpIsInf(r), _finite(a), _finite(b))
+    if name == 'div':
+        over = z3.And(over, z3.Not(z3.fpEQ(b, zero)))
+    _warn_if(over, f'overflow encountered in scalar {name}')
+
+
+def _signed_inf(neg):
+    return z3.If(neg, z3.fpMinusInfinity(F64), z3.fpPlusInfinity(F64))
+
+
+def _signed_zero(neg):
+    return z3.If(neg, z3.fpMinusZero(F64), z3.fpPlusZero(F64))
+
+
+UF_DIVF = z3.Function('uf_div_finite', F64, F64, F64)
+UF_ADDF = z3.Function('uf_add_finite', F64, F64, F64)
+UF_MULF = z3.Function('uf_mul_finite', F64, F64, F64)
+
+
+def _natural_arith(name: str, a, b):
+    """NumPy float64 scalar arithmetic with its warnings.  + and - are IEEE-754 (z3 FloatingPoint); for * and /
+    every special case (NaN, zeros, infinities, divide-by-zero, invalid) is exact and the ordinary case is an
+    uninterpreted finite value: overflow of * and / on finite operands is EXCLUDED from the claim (bit-blasting a
+    64-bit multiplier/divider did not finish within 30 s per query)."""
+    if name == 'sub' and a.eq(b):
+        # x - x: exact without bit-blasting (the solver loop compares a pass with an identical previous pass)
+        bad = z3.Or(z3.fpIsNaN(a), z3.fpIsInf(a))
+        _warn_if(z3.fpIsInf(a), 'invalid value encountered in scalar subtract')
+        return z3.If(bad, z3.fpNaN(F64), z3.fpPlusZero(F64))
+    if name == 'sub':
+        r = z3.fpSub(RNE, a, b)
+        _numpy_warnings(name, a, b, r)
+        return r
+    nan_in = z3.Or(z3.fpIsNaN(a), z3.fpIsNaN(b))
+    if name == 'add':
+        ia, ib = z3.fpIsInf(a), z3.fpIsInf(b)
+        invalid = z3.And(ia, ib, z3.Xor(z3.fpIsNegative(a), z3.fpIsNegative(b)))
+        _warn_if(invalid, 'invalid value encountered in scalar add')
+        core = UF_ADDF(a, b)
+        cur().require(z3.Implies(z3.And(_finite(a), _finite(b)), _finite(core)))   # overflow of + excluded, as for * and /
+        return z3.If(nan_in, z3.fpNaN(F64), z3.If(invalid, z3.fpNaN(F64), z3.If(ia, a, z3.If(ib, b, core))))
+    neg = z3.Xor(z3.fpIsNegative(a), z3.fpIsNegative(b))
+    za, zb, ia, ib = z3.fpIsZero(a), z3.fpIsZero(b), z3.fpIsInf(a), z3.fpIsInf(b)
+    if name == 'div':
+        _warn_if(z3.And(zb, _finite(a), z3.Not(za)), 'divide by zero encountered in scalar divide')
+        invalid = z3.And(z3.Not(nan_in), z3.Or(z3.And(za, zb), z3.And(ia, ib)))
+        _warn_if(invalid, 'invalid value encountered in scalar divide')
+        core = UF_DIVF(a, b)
+        ordinary = z3.And(_finite(a), _finite(b), z3.Not(zb), z3.Not(za))
+        cur().require(z3.Implies(ordinary, _finite(core)))
+        return z3.If(nan_in, z3.fpNaN(F64),
+                     z3.If(invalid, z3.fpNaN(F64),
+                           z3.If(zb, _signed_inf(neg),            # x / 0, x != 0 (finite or infinite)
+                                 z3.If(ia, _signed_inf(neg),       # inf / finite
+                                       z3.If(ib, _signed_zero(neg),   # finite / inf
+                                             z3.If(za, _signed_zero(neg), core))))))
+    # mul
+    invalid = z3.And(z3.Not(nan_in), z3.Or(z3.And(za, ib), z3.And(ia, zb)))
+    _warn_if(invalid, 'invalid value encountered in scalar multiply')
+    core = UF_MULF(a, b)
+    ordinary = z3.And(_finite(a), _finite(b))
+    cur().require(z3.Implies(ordinary, _finite(core)))
+    return z3.If(nan_in, z3.fpNaN(F64),
+                 z3.If(invalid, z3.fpNaN(F64),
+                       z3.If(z3.Or(ia, ib), _signed_inf(neg),
+                             z3.If(z3.Or(za, zb), _signed_zero(neg), core))))
+
+
+UF_LOGF = z3.Function('uf_log_finite', F64, F64)
+UF_EXPF = z3.Function('uf_exp_finite', F64, F64)
+EXP_OVERFLOW = 709.782712893384   # exp(x) overflows float64 just above this
+
+
+def _natural_log(x) -> 'SFloat':
+    zero = fpval(0.0)
+    _warn_if(z3.fpEQ(x, zero), 'divide by zero encountered in log')
+    _warn_if(z3.fpLT(x, zero), 'invalid value encountered in log')
+    core = UF_LOGF(x)
+    cur().require(z3.Implies(z3.And(z3.fpGT(x, zero), z3.Not(z3.fpIsInf(x))), _finite(core)))  # log of a finite positive number is finite
+    return SFloat(z3.If(z3.fpIsNaN(x), z3.fpNaN(F64),
+                        z3.If(z3.fpEQ(x, zero), z3.fpMinusInfinity(F64),
+                              z3.If(z3.fpLT(x, zero), z3.fpNaN(F64),
+                                    z3.If(z3.fpIsInf(x), z3.fpPlusInfinity(F64), core)))))
+
+
+def _natural_exp(x) -> 'SFloat':
+    lim = fpval(EXP_OVERFLOW)
+    _warn_if(z3.And(z3.fpGT(x, lim), z3.Not(z3.fpIsInf(x))), 'overflow encountered in exp')
+    core = UF_EXPF(x)
+    cur().require(z3.Implies(z3.And(z3.fpLEQ(x, lim), z3.Not(z3.fpIsInf(x))), z3.And(_finite(core), z3.fpGEQ(core, fpval(0.0)))))
+    return SFloat(z3.If(z3.fpIsNaN(x), z3.fpNaN(F64),
+                        z3.If(z3.fpGT(x, lim), z3.fpPlusInfinity(F64),
+                              z3.If(z3.fpIsInf(x), fpval(0.0), core))))
 
 
 def _apply_ufunc(name: str, args: list):
